@@ -36,8 +36,8 @@ Theorem views_agree_refuted_client_chain :
   exists c s o, negotiate c s = Ok o /\ vw_client_chain (oc_client o) <> vw_client_chain (oc_server o).
 Proof. exact views_agree_refuted_client_chain_pf. Qed.
 
-Theorem views_agree_refuted_server_chain :
-  exists c s o, negotiate c s = Ok o /\ vw_server_chain (oc_client o) <> vw_server_chain (oc_server o).
+Theorem views_agree_refuted_server_chain : refuted_unless fix_dhe_dsa_chain
+  (exists c s o, negotiate c s = Ok o /\ vw_server_chain (oc_client o) <> vw_server_chain (oc_server o)).
 Proof. exact views_agree_refuted_server_chain_pf. Qed.
 
 (* same view => same exporter output (or the same refusal), whatever the PRF/HKDF functions are *)
